@@ -11,6 +11,10 @@ Three more dimensions are enumerated on top of the answer tree:
            "a request is sent again only after a transient server error" is judged on what reaches the node.
 * PAD    - the size of the answer bodies: every body of the alphabet padded before AND after its deciding part
            (text marker / JSON error entries) so that the decision cannot be taken from a bounded head or tail.
+* OPTS   - the keyword options a request can carry down to the HTTP seam: stream (absent/True/False), params (absent/{}/non-empty),
+           a json body, extra headers of the node object, another requests option (allow_redirects), next to method and timeout; and the
+           streaming entry layers of the query layer that set them (`shell.monitor.*()`, `shell.network.peers[..].log(monitor=True)`).
+           The retry rule of the statement depends on none of them.
 * SESSION - several requests issued one after the other on the SAME client objects (process/object history); every request
            of a session is judged on its own against the statement, which knows no history.
 """
@@ -121,11 +125,60 @@ ENTRIES = {
     'query': (QPATH, False, {}, ('GET',)),
     'queryp': (QPATH, False, {'active': 'true'}, ('GET',)),
     '_verb': (QPATH, False, None, ('GET', 'POST', 'PUT', 'DELETE')),
+    # streaming query layer: the caller gets a generator over the JSON lines of the (first successful) response
+    'monitor': ('/monitor/bootstrapped', False, None, ('GET',)),
+    'peerlog': ('/network/peers/idQmPeer/log', False, None, ('GET',)),
 }
+STREAMING = ('monitor', 'peerlog')
+
+# keyword options of a request: option -> {spelling in an option key: value}; an option key is e.g. 'stream=1,json=1' ('' = no option)
+OPT_VALUES = {
+    'stream': {'1': True, '0': False},
+    'params': {'1': {'active': 'true'}, '0': {}},
+    'json': {'1': {'data': 'a1b2'}},
+    'headers': {'1': {'authorization': 'Bearer t0k'}},      # given to the RpcNode constructor, sent with every attempt
+    'other': {'0': False},                                  # any other requests.request argument: allow_redirects=False
+}
+OTHER_KW = 'allow_redirects'
+
+
+def options(optkey):
+    """{'stream': True, ...} of an option key."""
+    return {k: OPT_VALUES[k][v] for k, v in (p.split('=') for p in optkey.split(',') if p)}
+
+
+def accepted(entry, method):
+    """Options the entry layer has a keyword for."""
+    if entry == 'request':
+        return ('stream', 'params', 'json', 'headers', 'other')
+    if entry == 'multi':
+        return ('stream', 'params', 'json', 'other')            # RpcMultiNode takes no headers
+    if entry in ('verb', '_verb'):
+        return ('params', 'json', 'headers') if method == 'POST' else ('params', 'headers')
+    if entry == 'monitor':
+        return ('params', 'headers')                            # keyword arguments of the call are the query parameters; stream=True is built in
+    return ('headers',)
+
+
+def option_keys(entry, method, upto=None):
+    """Every option key the entry accepts (the product of its options, each absent or one of its values), fewest options first;
+    upto=1: only keys with at most one option."""
+    keys = ['']
+    for o in accepted(entry, method):
+        keys = keys + [f'{k},{o}={v}'.strip(',') for k in keys for v in OPT_VALUES[o]]
+    keys.sort(key=lambda k: (k.count('='), k))
+    return [k for k in keys if upto is None or k.count('=') <= upto]
 
 
 class NeedMore(BaseException):
     """The code under test asks for an answer beyond the sequence (BaseException: no `except Exception` of the code under test may eat it)."""
+
+
+class Resp(FakeResponse):
+    """A response that can also be read line by line, the way the streaming query layer does."""
+
+    def iter_lines(self, *a, **k):
+        return iter(self.text.encode().split(b'\n'))
 
 
 class Client:
@@ -135,45 +188,59 @@ class Client:
         self.made = {}
         self.multi_used = 0
 
-    def obj(self, what):
-        """Objects are made on first use INSIDE the judged call, so that a layer that cannot even be constructed is a verdict, not a harness error."""
-        if what not in self.made:
+    def obj(self, what, headers=None):
+        """Objects are made on first use INSIDE the judged call, so that a layer that cannot even be constructed is a verdict, not a harness error.
+        One node object per headers value; the query objects hang off the node with the same headers."""
+        key = (what, _json.dumps(headers, sort_keys=True))
+        if key not in self.made:
             from pytezos.rpc.node import RpcMultiNode, RpcNode
             if what == 'node':
-                self.made[what] = RpcNode(BASES[0])
+                self.made[key] = RpcNode(BASES[0], headers=dict(headers)) if headers else RpcNode(BASES[0])
             elif what == 'multi':
-                self.made[what] = RpcMultiNode(list(BASES))
+                self.made[key] = RpcMultiNode(list(BASES))
             else:
                 from pytezos.rpc.shell import ShellQuery
-                self.made[what] = ShellQuery(self.obj('node')).chains.main.chain_id
-        return self.made[what]
+                shell = ShellQuery(self.obj('node', headers))
+                self.made[key] = {'q': lambda: shell.chains.main.chain_id, 'monitor': lambda: shell.monitor.bootstrapped,
+                                  'peerlog': lambda: shell.network.peers['idQmPeer'].log}[what]()
+        return self.made[key]
 
     def base_of_next(self, entry):
         """Node address every attempt of the next request must go to (RpcMultiNode: round robin per REQUEST, not per attempt)."""
         return BASES[self.multi_used % len(BASES)] if entry == 'multi' else BASES[0]
 
-    def perform(self, entry, method, timeout):
+    def perform(self, entry, method, timeout, optkey=''):
         """Issue ONE request; returns the value handed to the caller."""
-        kw = {} if timeout is None else {'timeout': timeout}
+        opts = options(optkey)
+        if set(opts) - set(accepted(entry, method)):
+            raise ValueError(f'{entry} {method} has no keyword for {optkey}')
+        hdr = opts.pop('headers', None)
+        if 'other' in opts:
+            opts[OTHER_KW] = opts.pop('other')
+        kw = dict(opts) if timeout is None else dict(opts, timeout=timeout)
         if entry == 'request':
-            return self.obj('node').request(method, 'a/b', **kw).json()
+            return self.obj('node', hdr).request(method, 'a/b', **kw).json()
         if entry == 'verb':
-            return getattr(self.obj('node'), method.lower())('a/b', **kw)
+            return getattr(self.obj('node', hdr), method.lower())('a/b', **kw)
         if entry == 'multi':
             self.multi_used += 1
             return self.obj('multi').request(method, 'a/b', **kw).json()
         if entry == 'query':
-            return self.obj('q')()
+            return self.obj('q', hdr)()
         if entry == 'queryp':
-            return self.obj('q')(active='true')
+            return self.obj('q', hdr)(active='true')
         if entry == '_verb':
-            return getattr(self.obj('q'), '_' + method.lower())()
+            return getattr(self.obj('q', hdr), '_' + method.lower())(**opts)
+        if entry == 'monitor':
+            return list(self.obj('monitor', hdr)(**opts.get('params', {})))
+        if entry == 'peerlog':
+            return list(self.obj('peerlog', hdr)(monitor=True))
         raise ValueError(entry)
 
 
-def drive_session(session, entries, method='GET', timeout=None, pad=0, strict=False):
+def drive_session(session, entries, method='GET', timeout=None, pad=0, strict=False, opts=('',)):
     """Run the requests of `session` (a list of answer sequences) one after the other on the same client objects, request i through
-    entry layer entries[i % len(entries)].  Returns one observation dict per request.  A request that asks for more answers than its
+    entry layer entries[i % len(entries)] with the keyword options opts[i % len(opts)].  Returns one observation dict per request.  A request that asks for more answers than its
     sequence holds gets success answers (strict=False, observation flagged 'overflow') or raises NeedMore (strict=True)."""
     from pytezos.rpc.node import RpcError
     cur = {}
@@ -190,7 +257,7 @@ def drive_session(session, entries, method='GET', timeout=None, pad=0, strict=Fa
             cur['overflow'] += 1
             name = 'ok'
         st, _, text, ct = padded(name, pad)
-        return FakeResponse(st, text, ct)
+        return Resp(st, text, ct)
 
     def fake_sleep(d):
         cur['sleeps'].append(d)
@@ -201,10 +268,10 @@ def drive_session(session, entries, method='GET', timeout=None, pad=0, strict=Fa
         for i, seq in enumerate(session):
             cur.clear()
             cur.update(seq=seq, calls=[], args=[], sleeps=[], overflow=0)
-            entry = entries[i % len(entries)]
-            obs = {'base': client.base_of_next(entry)}
+            entry, optkey = entries[i % len(entries)], opts[i % len(opts)]
+            obs = {'base': client.base_of_next(entry), 'opts': optkey}
             try:
-                obs['result'] = ('ok', client.perform(entry, method, timeout))
+                obs['result'] = ('ok', client.perform(entry, method, timeout, optkey))
             except RpcError as e:
                 obs['result'] = ('rpc_error', type(e).__name__, list(e.args))
             except NeedMore:
@@ -218,9 +285,9 @@ def drive_session(session, entries, method='GET', timeout=None, pad=0, strict=Fa
     return out
 
 
-def drive(seq, method='GET', timeout=None, entry='request', pad=0):
+def drive(seq, method='GET', timeout=None, entry='request', pad=0, opts=''):
     """One request on fresh objects; raises NeedMore if the loop asks for an answer beyond the sequence."""
-    return drive_session([seq], [entry], method, timeout, pad, strict=True)[0]
+    return drive_session([seq], [entry], method, timeout, pad, strict=True, opts=(opts,))[0]
 
 
 def complete(seq):
@@ -238,7 +305,7 @@ def expected(seq, method, timeout, entry='request', pad=0, base=BASES[0]):
     path, has_timeout, _, _ = ENTRIES[entry]
     st, body, _, ct = padded(seq[n - 1], pad)
     if st == 200:
-        result = ('ok', body)
+        result = ('ok', [body] if entry in STREAMING else body)       # streaming layers hand out the JSON lines of the response
     elif st == 401:
         result = ('rpc_error', None, ['Unauthorized: ' + path])
     elif st == 404:
@@ -261,6 +328,7 @@ def judge(seq, obs, method, timeout, pad, where=''):
     """Compare the observation of ONE request with the statement."""
     entry = obs['entry']
     exp = expected(seq, method, timeout, entry, pad, obs['base'])
+    where = where + (f'[options {obs["opts"]}] ' if obs.get('opts') else '')
     ncalls = len(obs['calls'])
     out = []
     if ncalls != exp['n']:
@@ -281,16 +349,16 @@ def judge(seq, obs, method, timeout, pad, where=''):
     return out
 
 
-def check(seq, method='GET', timeout=None, entry='request', pad=0):
-    obs = drive(seq, method, timeout, entry, pad)
+def check(seq, method='GET', timeout=None, entry='request', pad=0, opts=''):
+    obs = drive(seq, method, timeout, entry, pad, opts)
     return judge(seq, obs, method, timeout, pad, f'{method} via {entry}, body padding {pad}: '), obs
 
 
-def check_session(session, entries, method='GET', timeout=None, pad=0):
-    obss = drive_session(session, entries, method, timeout, pad)
+def check_session(session, entries, method='GET', timeout=None, pad=0, opts=('',)):
+    obss = drive_session(session, entries, method, timeout, pad, opts=tuple(opts))
     out = []
     for i, (seq, obs) in enumerate(zip(session, obss)):
-        where = f'request {i + 1} of {len(session)} on the same objects (via {obs["entry"]}): ' if len(session) > 1 else f'via {obs["entry"]}: '
+        where = f'request {i + 1} of {len(session)} on the same objects (via {obs["entry"]}): ' if len(session) > 1 else f'{method} via {obs["entry"]}: '
         for d, detail in judge(seq, obs, method, timeout, pad, where):
             out.append((d if i == 0 else d + ' (request after earlier requests on the same client objects)',
                         detail + (f' session={session}' if len(session) > 1 else '')))
@@ -299,17 +367,17 @@ def check_session(session, entries, method='GET', timeout=None, pad=0):
 
 # ---------------------------------------------------------------------------------------------------------------------
 def explore(prefix, dims, r: Result, closing=False):
-    method, timeout, entry, pad = dims
+    method, timeout, entry, pad, opts = dims
     try:
-        vs, obs = check(prefix, method, timeout, entry, pad)
+        vs, obs = check(prefix, method, timeout, entry, pad, opts)
     except NeedMore:
         r.transitions += 1
         if closing:
             r.ev()
             r.out('keeps asking after the closing success')
             r.viol('more than six attempts' if len(prefix) > CAP else 'retried a non-transient answer',
-                   {'seq': prefix, 'method': method, 'timeout': timeout, 'entry': entry, 'pad': pad},
-                   f'seq={prefix}: the request is sent again even after a success answer')
+                   {'seq': prefix, 'method': method, 'timeout': timeout, 'entry': entry, 'pad': pad, 'opts': opts},
+                   f'{method} via {entry} [options {opts}] seq={prefix}: the request is sent again even after a success answer')
         elif complete(prefix):
             # the statement says the request is over: do not branch (the tree would not be finite), offer one success and report
             explore(prefix + ['ok'], dims, r, closing=True)
@@ -318,7 +386,7 @@ def explore(prefix, dims, r: Result, closing=False):
                 explore(prefix + [a], dims, r)
         return
     r.ev()
-    case = {'seq': prefix, 'method': method, 'timeout': timeout, 'entry': entry, 'pad': pad}
+    case = {'seq': prefix, 'method': method, 'timeout': timeout, 'entry': entry, 'pad': pad, 'opts': opts}
     if any(transient(a) for a in prefix):
         r.nt(('tree', tuple(prefix), dims))
     r.out(f'{len(obs["calls"])} requests -> {obs["result"][0]}')
